@@ -327,6 +327,11 @@ package data
 //@ spec func MapSize(bytes []byte) int { return u16(bytes[0:2]) }
 
 // Data() is a function of the mapping's value (its pairs).
+// Every pair the parser stores consists of two non-empty I2PStrings (length
+// byte present): accessors such as MappingValues.Get slice pair[1][1:].
+//@ spec func PairOK(p [2]I2PString) bool { return len(p[0]) >= 1 && len(p[1]) >= 1 }
+//@ elem PairOK
+
 //@ contract (mapping *Mapping) Data() (b []byte)
 //@   pure
 //@   ensures fresh(b)
